@@ -420,7 +420,19 @@ def _check_si(case):
     x = _signal(case)
     with warnings.catch_warnings():
         warnings.simplefilter("ignore")
-        want = _make_si(case).compute_full(x.copy())
+        try:
+            want = _make_si(case).compute_full(x.copy())
+        except Exception as e:  # noqa
+            # the NumPy computer itself refuses this input (C03's business): the wrapper has nothing to equal;
+            # it must not return a value either
+            stats["np_raised"] = f"{type(e).__name__}: {str(e)[:80]}"
+            try:
+                pst.PyTorchSIFrameComputer.from_si_frame_computer(_make_si(case))(torch.tensor(x))
+            except type(e):
+                return fails, False, stats
+            except Exception as e2:  # noqa
+                return fails, False, stats
+            return [("C14.si.value", case, f"SIFrameComputer.compute_full raises {stats['np_raised']} but the wrapper returned a value")], False, stats
         src = _make_si(case)
         m = pst.PyTorchSIFrameComputer.from_si_frame_computer(src)
         if m.si_frame_computer is not src:
@@ -701,11 +713,12 @@ def run(tier: str, seed: int) -> dict:
     _common.use_repo()
     import torch
 
-    col = _common.Collector(PROPERTY, tier, seed, budget_s=48 if tier == "quick" else 540)
+    col = _common.Collector(PROPERTY, tier, seed, budget_s=48 if tier == "quick" else 480)
     ctx = _Ctx()
     worst = {"f64": 0.0, "f32": 0.0, "script": 0.0, "si": 0.0, "z": 0.0}
     short_n = short_diff = short_raise = 0
     short_ex = []
+    np_raised = []
     n_script = 0
     checked_params = set()
     nt = torch.get_num_threads()
@@ -740,6 +753,8 @@ def run(tier: str, seed: int) -> dict:
                         short_ex.append((bool(stats.get("short_raises")), stats["short_msg"]))
             elif case["check"] == "si" and "err" in stats:
                 worst["si"] = max(worst["si"], stats["err"])
+            elif case["check"] == "si" and "np_raised" in stats:
+                np_raised.append(f"{case['bank']['kind']} {case['bank']['num_filts']} filters, shift {case['frame_shift']}, {case['frame_style']}, pad {case['pad']}, N={case['N']}: {stats['np_raised']}")
             elif "z" in stats:
                 worst["z"] = max(worst["z"], stats["z"])
             for clause, c, msg in fails:
@@ -754,6 +769,8 @@ def run(tier: str, seed: int) -> dict:
         "wraps, the padded signal is too short and as_strided fails - whereas numpy's 'symmetric' pad reflects periodically. Examples: " + "; ".join(m for _, m in short_ex)
     )
     col.note(f"SI wrapper worst difference {worst['si']:.2e}; PyTorchDither largest |z| in the moment tests {worst['z']:.2f} standard errors (limit {N_SE}); PyTorchPostProcessorWrapper and PyTorchSIFrameComputer cannot be compiled by torch.jit.script (non-tensor attribute / NumPy code behind @torch.jit.unused), so the TorchScript clause is checked for the STFT, pre-emphasis and dither modules only")
+    if np_raised:
+        col.note(f"SIFrameComputer.compute_full itself raised on {len(np_raised)} SI cases (nothing to compare; the wrapper raised too), e.g. " + np_raised[0])
     return col.result(
         rule="one STFT case = (bank, frame_length, frame_shift, padded DFT?, frame style, kaldi_shift, window, use_log, use_power, include_energy, precision, signal length N, amplitude, eager [+ scripted]); non-trivial when N >= frame_length and >= 1 frame is produced, or (empty-result clause) when the result is empty and include_energy is set / the zero-frame configuration; other cases = one module call of PyTorchPreemphasize / PostProcessorWrapper / SIFrameComputer / Dither (non-trivial: non-empty output)",
         bound="BOUNDED: rate 8000 Hz; 12 banks (quick) / 17 (thorough): Gabor low_hz 0/20, gammatone, triangular and Fbank real/analytic; frame lengths {100,101,102,128,61} (thorough + {130,96,37,64,75}) with DFT = L or next power of two (sizes 0,1,2,3 mod 4); shifts {37,40,L//2+3,L,23,7,L+9} (Kaldi: shift//2 <= L//2); causal / centered / centered+kaldi; 6 windows; all 8 flag combinations by rotation; N in {0,1,L//2,L//2+1,L-1,L,L+1,3L+7} (+ random); white-noise signals; float64 and float32; dither moments on 1e5 samples for 3 (quick) / 20 (thorough) torch seeds",
